@@ -69,6 +69,18 @@ func builderFor(engine string) datamodel.NodeBuilder {
 	if strings.HasPrefix(engine, "basic:") {
 		return lib.BuilderFor(engine[6:])
 	}
+	if strings.HasPrefix(engine, "tbind:") || strings.HasPrefix(engine, "tgen:") {
+		i := strings.IndexByte(engine, ':')
+		t, err := lib.SchParse(engine[i+1:])
+		if err != nil {
+			panic(err)
+		}
+		nb, err := lib.TypedBuilder(engine[:i], t)
+		if err != nil || nb == nil {
+			panic(fmt.Sprintf("no builder for %s: %v", engine, err))
+		}
+		return nb
+	}
 	if engine == "enum:any" {
 		return lib.BuilderFor("any")
 	}
@@ -102,7 +114,15 @@ func observe(engine string, script string) string {
 			continue
 		}
 		var d string
-		if err := lib.Safely(func() error { d = lib.Dump(n); return nil }); err != nil {
+		typed := strings.HasPrefix(engine, "tbind:") || strings.HasPrefix(engine, "tgen:")
+		if err := lib.Safely(func() error {
+			if typed {
+				d = lib.DumpTyped(n)
+			} else {
+				d = lib.Dump(n)
+			}
+			return nil
+		}); err != nil {
 			d = "!P"
 		}
 		sb.WriteString("|b=ok|t=" + d)
@@ -270,6 +290,135 @@ func (g *injGen) mapMsg3(v *lib.Val) []*lib.Op {
 	return append(ops, op("FI"))
 }
 
+// ---- the typed family: every assign form, at every typed position
+
+type form struct {
+	op  *lib.Op
+	cls string // what the call carries: n b i U(int above MaxInt64) d s y k L M
+}
+
+var sampleCid = lib.NewRng(1).GenCid()
+
+func uspec(u uint64) *lib.NSpec { return &lib.NSpec{Tag: 'u', V: lib.Uint(u)} }
+
+var allForms = []form{
+	{&lib.Op{Code: "X", V: lib.Null()}, "n"}, {&lib.Op{Code: "X", V: lib.Bool(true)}, "b"},
+	{&lib.Op{Code: "X", V: lib.Int(7)}, "i"}, {&lib.Op{Code: "X", V: lib.Float(1.5)}, "d"},
+	{&lib.Op{Code: "X", V: lib.Str("7")}, "s"}, {&lib.Op{Code: "X", V: lib.Bytes("7")}, "y"},
+	{&lib.Op{Code: "X", V: lib.Link(sampleCid)}, "k"},
+	{&lib.Op{Code: "BM", Hint: 1}, "M"}, {&lib.Op{Code: "BL", Hint: 1}, "L"},
+	{&lib.Op{Code: "XN", N: lib.PlainSpec(lib.Null())}, "n"}, {&lib.Op{Code: "XN", N: lib.PlainSpec(lib.Bool(false))}, "b"},
+	{&lib.Op{Code: "XN", N: lib.PlainSpec(lib.Int(-3))}, "i"}, {&lib.Op{Code: "XN", N: uspec(5)}, "i"},
+	{&lib.Op{Code: "XN", N: uspec(1 << 63)}, "U"}, {&lib.Op{Code: "XN", N: uspec(1<<64 - 1)}, "U"},
+	{&lib.Op{Code: "XN", N: lib.PlainSpec(lib.Float(0.5))}, "d"}, {&lib.Op{Code: "XN", N: lib.PlainSpec(lib.Str("s"))}, "s"},
+	{&lib.Op{Code: "XN", N: lib.PlainSpec(lib.Bytes("b"))}, "y"}, {&lib.Op{Code: "XN", N: lib.PlainSpec(lib.Link(sampleCid))}, "k"},
+	{&lib.Op{Code: "XN", N: lib.PlainSpec(lib.List())}, "L"}, {&lib.Op{Code: "XN", N: lib.PlainSpec(lib.List(lib.Int(1)))}, "L"},
+	{&lib.Op{Code: "XN", N: lib.PlainSpec(lib.Map())}, "M"}, {&lib.Op{Code: "XN", N: lib.PlainSpec(lib.Map(lib.Entry{K: "k", V: lib.Int(1)}))}, "M"},
+}
+
+var acceptCls = map[byte]string{'B': "b", 'I': "i", 'D': "d", 'S': "s", 'Y': "y", 'K': "k", 'L': "L", 'M': "M", 'R': "M"}
+
+// the calls a position of type t (nullable or not) must refuse
+func refused(t *lib.SchTy, nul bool) []form {
+	if t.K == 'A' {
+		return nil
+	}
+	var out []form
+	for _, f := range allForms {
+		switch {
+		case f.cls == "n":
+			if !nul {
+				out = append(out, f)
+			}
+		case f.cls == acceptCls[t.K]:
+		default:
+			out = append(out, f)
+		}
+	}
+	return out
+}
+
+func (g *injGen) tries(t *lib.SchTy, nul bool) []*lib.Op {
+	fs := refused(t, nul)
+	if len(fs) == 0 || !g.point() {
+		return nil
+	}
+	var ops []*lib.Op
+	w := "E" + string(t.K)
+	if g.target == -2 {
+		for _, f := range fs {
+			ops = append(ops, want(f.op, w))
+		}
+		return ops
+	}
+	for i, n := 0, 1+g.r.Intn(3); i < n; i++ {
+		ops = append(ops, want(fs[g.r.Intn(len(fs))].op, w))
+	}
+	return ops
+}
+
+// a type-level value v of type t at a typed position
+func (g *injGen) typedValue(t *lib.SchTy, nul bool, v *lib.Val) []*lib.Op {
+	ops := g.tries(t, nul)
+	if t.K == 'A' {
+		return append(ops, g.value(v)...)
+	}
+	if v.Kind == lib.KNull {
+		if g.r.Bool() {
+			return append(ops, &lib.Op{Code: "X", V: v})
+		}
+		return append(ops, &lib.Op{Code: "XN", N: lib.PlainSpec(v)})
+	}
+	switch t.K {
+	case 'L':
+		ops = append(ops, &lib.Op{Code: "BL", Hint: int64(len(v.L)) + int64(g.r.Intn(3)) - 1})
+		for _, x := range v.L {
+			ops = append(ops, op("AV"))
+			ops = append(ops, g.typedValue(t.Elem, t.Nul, x)...)
+		}
+		return append(ops, op("FI"))
+	case 'M':
+		ops = append(ops, &lib.Op{Code: "BM", Hint: int64(len(v.M))})
+		for _, e := range v.M {
+			ops = append(ops, g.entryHead(e.K)...)
+			ops = append(ops, g.typedValue(t.Elem, t.Nul, e.V)...)
+		}
+		return append(ops, op("FI"))
+	case 'R':
+		ops = append(ops, &lib.Op{Code: "BM", Hint: int64(len(v.M))})
+		for _, i := range g.r.Perm(len(v.M)) {
+			e := v.M[i]
+			var ft *lib.SchField
+			for j := range t.Fields {
+				if t.Fields[j].Name == e.K {
+					ft = &t.Fields[j]
+				}
+			}
+			ops = append(ops, g.entryHead(e.K)...)
+			ops = append(ops, g.typedValue(ft.T, ft.Nul, e.V)...)
+		}
+		return append(ops, op("FI"))
+	}
+	if g.r.Chance(25) {
+		return append(ops, &lib.Op{Code: "XN", N: lib.PlainSpec(v)})
+	}
+	return append(ops, &lib.Op{Code: "X", V: v})
+}
+
+func runTyped(out *lib.Out, id string, t *lib.SchTy, v *lib.Val, script string) {
+	for _, e := range []string{"tbind", "tgen"} {
+		nb, err := lib.TypedBuilder(e, t)
+		if nb == nil {
+			if e == "tbind" {
+				panic(fmt.Sprintf("bindnode cannot bind %s: %v", t.Text(), err))
+			}
+			continue
+		}
+		engine := e + ":" + t.Text()
+		out.Case(id+"."+e[1:2], "c12", engine, lib.TypedExpect(t, v), script, observe(engine, script))
+	}
+}
+
 func genMsg3(r *lib.Rng) *lib.Val {
 	v := &lib.Val{Kind: lib.KMap}
 	for _, f := range lib.Msg3Fields {
@@ -409,6 +558,29 @@ func main() {
 		budget, depth = 400000, 8
 	}
 	enumerate(out, next, depth, &budget)
+
+	// ---- the typed family (bindnode over inferred Go types; gendemo where the type exists):
+	// legal scripts with every refused assign form injected at every typed position
+	fam := lib.TypedFamily()
+	nfam := n / 2
+	for i := 0; i < len(fam)*2+nfam; i++ {
+		var t *lib.SchTy
+		if i < len(fam)*2 {
+			t = fam[i%len(fam)]
+		} else {
+			// (a root of type Any is left out: bindnode's node for it reports Kind Invalid, cf. union_any of C08)
+			t = rng.GenTypedTy(0)
+			for t.K == 'A' || (t.K != 'L' && t.K != 'M' && t.K != 'R' && rng.Chance(80)) {
+				t = rng.GenTypedTy(0)
+			}
+		}
+		v := rng.GenTypedVal(t)
+		base := next()
+		seed := rng.U64()
+		for j, s := range variants(seed, func(g *injGen) []*lib.Op { return g.typedValue(t, false, v) }, true, 4) {
+			runTyped(out, fmt.Sprintf("%s.%d", base, j), t, v, lib.ScriptText(s))
+		}
+	}
 
 	// ---- generated: values x legal scripts x injections at every position
 	cfg := &lib.GenCfg{MaxDepth: 3, MaxWidth: 3, Links: true, UintBeyond: true, BadUTF8: true}
